@@ -143,7 +143,8 @@ def make(prop, oracle, theorems, *, domain=rc.in_c01_domain, gen_kwargs=None, mo
         return 0
 
     def go():
-        return run_check(prop, proof_modules=["PedalProofs." + prop], theorems=theorems, translate=translate,
+        return run_check(prop, proof_modules=["PedalProofs." + prop], theorems=theorems, driver_exe="driver_resolver",
+                         translate=translate,
                          correspond=correspond, search=search, replay=replay, model_notes=model_notes,
                          refuted_full=refuted_full, leanchecker_modules=["PedalProofs." + prop])
     return go
